@@ -255,8 +255,10 @@ class OrderedCadence(Cadence):
 
     def insert(self, i, v):
         self._check(v)
+        # Clamp to the position list.insert will actually use
         if i < 0:
-            i = len(self) + i
+            i = max(len(self) + i, 0)
+        i = min(i, len(self))
         if "order_label" not in v.metadata:
             v.add_metadata({"order_label": self.order[i]})
         self.frames.insert(i, v)
